@@ -277,6 +277,8 @@ def run_shard(binary, cases, tag='x', per_case_timeout=20.0, extra_args=(), env=
                     p.wait()
             err = open(os.path.join(sd, 'e%d.txt' % attempt), 'r', errors='replace').read()
             recs, order = parse_log(lf)
+            if '__global__' in recs and recs['__global__'].complete:
+                out['__global__:%s:%d' % (tag, attempt)] = recs['__global__']
             done_ids = set()
             last_incomplete = None
             for c in pending:
@@ -331,7 +333,7 @@ def run_cases(binary, cases, shards=None, tag='x', per_case_timeout=20.0, extra_
         for f in futs:
             for k, v in f.result().items():
                 if k == '__exit__':
-                    res.setdefault('__exit__', v)
+                    res.setdefault('__exit__:%s' % len(res), v)
                 else:
                     res[k] = v
     return res
